@@ -81,6 +81,7 @@ def version_display(e, v):
 
 def V_(e, v):
     v = e.deref(v)
+    if isinstance(v, EnumV) and v.ty == 'Cow': v = e.deref(v.slots[0])
     if isinstance(v, Opaque) and v.kind == 'Version': return v
     raise Unsupported('expected a Version')
 
@@ -96,21 +97,35 @@ def _(e, c, a, raw):
 @model('re:^<(debversion::)?Version as ToString>::to_string$')
 def _(e, c, a, raw): return Str(version_display(e, V_(e, a[0])))
 def version_hook_display(self, e, debug=False): return version_display(e, self)
-@model('re:^<(debversion::)?Version as PartialEq>::(eq|ne)$')
+@model('re:^<&?(debversion::)?Version as PartialEq(<&?(debversion::)?Version>)?>::(eq|ne)$')
 def _(e, c, a, raw):
     r = version_cmp(e, V_(e, a[0]), V_(e, a[1])) == 0
     return r if c.endswith('eq') else (not r)
+def _single_digit(e, v):
+    ep, up, rev = v.payload.slots
+    if ep is not None or rev is not None or len(up.chars) != 1: return None
+    c = up.chars[0]
+    if isinstance(c, int): return c if 48 <= c <= 57 else None
+    if e.check(z3.Not(z3.And(c >= 48, c <= 57))): return None
+    return c
+
+
 def version_cmp(e, x, y):
-    """Debian ordering evaluated natively on concretised texts"""
+    """Debian ordering: single-digit versions are compared symbolically (digit order == Debian order);
+    everything else is evaluated natively on concretised texts"""
+    a, b = _single_digit(e, x), _single_digit(e, y)
+    if a is not None and b is not None:
+        if e.branch(a < b if (is_sym(a) or is_sym(b)) else a < b): return -1
+        return 0 if e.branch(s_eq(a, b)) else 1
     sx = concretize_str(e, Str(version_display(e, x))); sy = concretize_str(e, Str(version_display(e, y)))
     r = native(e, {'fn': 'version_cmp', 's': sx, 't': sy})
     if not r.get('ok'): raise Unsupported('native version_cmp rejected %r / %r' % (sx, sy))
     return r['cmp']
-@model('re:^<(debversion::)?Version as (Ord|PartialOrd)>::(cmp|partial_cmp)$')
+@model('re:^<&?(debversion::)?Version as (Ord|PartialOrd)(<&?(debversion::)?Version>)?>::(cmp|partial_cmp)$')
 def _(e, c, a, raw):
     r = EnumV('Ordering', {-1: 'Less', 0: 'Equal', 1: 'Greater'}[version_cmp(e, V_(e, a[0]), V_(e, a[1]))])
     return SOME(r) if c.endswith('partial_cmp') else r
-@model('re:^<(debversion::)?Version as PartialOrd>::(lt|le|gt|ge)$')
+@model('re:^<&?(debversion::)?Version as PartialOrd(<&?(debversion::)?Version>)?>::(lt|le|gt|ge)$')
 def _(e, c, a, raw):
     r = version_cmp(e, V_(e, a[0]), V_(e, a[1])); op = c.rsplit('::', 1)[1]
     return {'lt': r < 0, 'le': r <= 0, 'gt': r > 0, 'ge': r >= 0}[op]
